@@ -68,14 +68,14 @@ def runs_for_hydro(beh, dt, views, wd, tag):
     return runs
 
 
-def runs_for_record(rec, dt, views, wd, tag):
+def runs_for_record(rec, dt, views, wd, tag, stagger=0):
     """a Classify lattice record with AT-threshold increments (J = 1 mm per step)"""
     runs = []
     dt_h = dt / 3600.0
     for vi, (e0, zone) in enumerate(views):
         # thresholds as a user would type them: 3 mm/h on a 20-minute grid is 1 mm per step
         pres = P.Presentation(dt=dt, e0=e0, s_real=4.0, j_real={1200: 3.0, 1800: 2.0, 3600: 1.0, 600: 6.0}[dt],
-                              S=4, J=1, gap=1, gap_rain=0, zone=zone)
+                              S=4, J=1, gap=1, gap_rain=0, zone=zone, stagger=stagger)
         rain_rows, et_rows, level_rows = pres.series(rec)
         wf = Workflow(wd, "%s_%d" % (tag, vi), rain_rows, et_rows, level_rows, zone)
         outc = {"load": wf.load()}
@@ -88,10 +88,20 @@ def runs_for_record(rec, dt, views, wd, tag):
     return runs
 
 
-def _views(rng, dt, n):
+OFFSET = {"UTC": 0, "Etc/GMT-7": 7 * 3600, "Etc/GMT+5": -5 * 3600, "Asia/Kolkata": 19800}
+
+
+def _views(rng, dt, n, wall_clock=False):
+    """wall_clock: the SAME wall-clock files declared in other fixed-offset zones (the absolute shift, e.g.
+    5 h 30 min, need not be a whole number of steps); otherwise origins shifted by whole steps"""
     vs = []
     base = rng.choice(ORIGINS)
-    vs.append((base - base % dt, "UTC"))
+    base -= base % dt
+    vs.append((base, "UTC"))
+    if wall_clock:
+        for zone in rng.sample(ZONES[1:], n - 1):
+            vs.append((base - OFFSET[zone], zone))
+        return vs
     for _ in range(n - 1):
         o = rng.choice(ORIGINS) + dt * rng.randint(0, 5000)
         vs.append((o - o % dt, rng.choice(ZONES)))
@@ -104,7 +114,8 @@ def _worker(batch):
     try:
         for cid, kind, obj, dt, views in batch:
             tag = "s%d_%d" % (os.getpid(), cid)
-            runs = runs_for_hydro(obj, dt, views, wd, tag) if kind == "hydro" else runs_for_record(obj, dt, views, wd, tag)
+            stagger = dt // 2 if (kind == "record" and cid % 4 == 1) else 0
+            runs = runs_for_hydro(obj, dt, views, wd, tag) if kind == "hydro" else runs_for_record(obj, dt, views, wd, tag, stagger)
             out.append({"id": cid, "runs": runs, "prop": "C07", "between": "time origins"})
     finally:
         rm(wd)
@@ -138,12 +149,12 @@ def c07(chk, tier):
     jobs, cid = [], 0
     meta = {}
     for r in recs:
-        dt = [1200, 1200, 1800, 3600][cid % 4]
-        v = _views(rng, dt, 3)
+        dt = [1200, 3600, 1800, 3600][cid % 4]
+        v = _views(rng, dt, 3, wall_clock=cid % 2 == 1)
         jobs.append((cid, "record", r, dt, v)); meta[cid] = ("record", r, dt, v); cid += 1
     for b in behs:
         dt = [1200, 1800, 3600][cid % 3]
-        v = _views(rng, dt, 3)
+        v = _views(rng, dt, 3, wall_clock=cid % 2 == 1)
         jobs.append((cid, "hydro", b, dt, v)); meta[cid] = ("hydro", b, dt, v); cid += 1
     cases = []
     batches = [jobs[i:i + 15] for i in range(0, len(jobs), 15)]
@@ -188,6 +199,7 @@ def c07(chk, tier):
             f["clause"], kind, dt, v[0][0], v[0][1], case["runs"][0][field][:300], v[r - 1][0], v[r - 1][1],
             case["runs"][r - 1][field][:300]),
             {"kind": "shift", "source": kind, "obj": obj, "dt": dt, "views": v, "clause": f["clause"],
+             "stagger": dt // 2 if (kind == "record" and f["id"] % 4 == 1) else 0,
              "key": "C07-rate-rounding-nonbinary-step" if (dt % 900 and field in ("flags", "inter")) else None})
 
 
@@ -196,7 +208,7 @@ def replay_file(chk, rp):
     try:
         views = [tuple(v) for v in rp["views"]]
         runs = runs_for_hydro(rp["obj"], rp["dt"], views, wd, "rp") if rp["source"] == "hydro" else \
-            runs_for_record(rp["obj"], rp["dt"], views, wd, "rp")
+            runs_for_record(rp["obj"], rp["dt"], views, wd, "rp", rp.get("stagger", 0))
     finally:
         rm(wd)
     chk.count("evaluations"); chk.count("distinct_nontrivial", 2); chk.count("traces_validated_against_impl")
